@@ -635,9 +635,9 @@ func c19Run(w *simrt.World, tier string) {
 		}
 	case 3:
 		shared := cw.mode == "raw-memory" || cw.mode == "raw-redis" || cw.mode == "hybrid-redis"
-		// not in legacy runs: PortMappingRepo reads go through x/sync/singleflight, which turns the
-		// unwinding of a crashed task into its own panic type (a harness artefact, not a repo defect)
-		if nnodes == 2 && shared && !legacy {
+		// (legacy runs included: simrt recognises a simulated crash that x/sync/singleflight re-panics
+		// from PortMappingRepo reads by the CrashMarker in its text)
+		if nnodes == 2 && shared {
 			cw.faulty = true
 			s := cw.nodes[faultNode].stores[0]
 			s.Filter, s.CountWritesOnly, s.CrashAt = isHTTPDomain, true, faultK
@@ -884,7 +884,9 @@ func (cw *c19world) judge(nnames int) {
 	// sig builds a stable signature; when two successful creates of this run were handed the same
 	// mapping id every consequence is filed under that root cause (one class per oracle).
 	sig := func(oracle, kind, detail string) string {
-		if reused {
+		// (legacy-source and case-variant classes have a cause of their own and keep their class)
+		independent := strings.Contains(detail, "legacy") || strings.Contains(detail, "case-variant")
+		if reused && !independent {
 			return "C19:" + oracle + ":" + kind + ":reused-mapping-ids"
 		}
 		s := "C19:" + oracle + ":" + kind
@@ -892,7 +894,7 @@ func (cw *c19world) judge(nnames int) {
 			s += ":" + detail
 		}
 		// a fired fault is part of the class, except where the cause is plainly independent of it
-		if len(w.Res.Faults) > 0 && !strings.Contains(detail, "legacy") && !strings.Contains(detail, "case-variant") {
+		if len(w.Res.Faults) > 0 && !independent {
 			s += ":after-storage-fault"
 		}
 		return s
